@@ -184,6 +184,7 @@ func (packet *Packet) SetParameters(values []base.BoundValue) (err error) {
 
 	// NULL-bitmap, length: (num-params+7)/8
 	// new-params-bound-flag
+	nullBitmap := packet.data[pos : pos+(len(values)+7)>>3]
 	pos += (len(values)+7)>>3 + 1
 
 	resultData := make([]byte, len(packet.data[:pos]), len(packet.data))
@@ -223,6 +224,12 @@ func (packet *Packet) SetParameters(values []base.BoundValue) (err error) {
 	}
 
 	for i := 0; i < len(values); i++ {
+		// A NULL parameter is announced in the NULL-bitmap (copied above) and has NO value bytes, whatever its
+		// declared type is. Encode() of a NULL value with a string/blob type yields an empty length-encoded
+		// string (one 0x00 byte), which shifted all following parameter values.
+		if nullBitmap[i/8]&(1<<(uint(i)%8)) > 0 {
+			continue
+		}
 		encoded, err := values[i].Encode()
 		if err != nil {
 			return err
@@ -319,6 +326,13 @@ func (packet *Packet) IsEOF() bool {
 	isOkPacket := packet.data[0] == OkPacket && packet.GetPacketPayloadLength() > 7
 	isEOFPacket := packet.data[0] == EOFPacket && packet.GetPacketPayloadLength() < 9
 	return isOkPacket || isEOFPacket
+}
+
+// isResultSetRowsEnd return true if packet ends the rows of a result set: EOF_Packet or, for clients with
+// CLIENT_DEPRECATE_EOF, OK_Packet with the 0xfe header. A row can start with 0xfe only as the length prefix of a
+// string of 2^24 bytes or more, i.e. in a packet of the maximum payload length.
+func (packet *Packet) isResultSetRowsEnd() bool {
+	return packet.data[0] == EOFPacket && packet.GetPacketPayloadLength() < MaxPayloadLen
 }
 
 // IsErr return true if packet has ErrPacket flag
